@@ -115,3 +115,51 @@ func Verif_C19_redaction() {
 	check("status-after-restart", st2)
 	verifapi.Assert("no-lock-left-held", verifapi.HeldLocks() == 0)
 }
+
+// Verif_C19_two_units: two remote units with different parameter sets live side by side; a third is
+// submitted afterwards. Every status/list answer redacts each unit by ITS OWN parameter names: what is
+// known about one unit's secret names never decides what is shown for another.
+func Verif_C19_two_units() {
+	dir := verifapi.TempDir()
+	wk := verifWorkceptor(dir)
+	verifapi.FixRandom("unit0030", "unit0031", "unit0032")
+	k1 := verifASCIIString(8)
+	verifapi.Assume(verifapi.All(k1 != "worktype", k1 != "signwork"))
+	submit := func(params map[string]string) string {
+		cfg := map[string]interface{}{"command": "work", "subcommand": "submit", "node": "R", "worktype": "echo", "tlsclient": "tls"}
+		for k, v := range params {
+			cfg[k] = v
+		}
+		resp, err := wk.verifCommand(verifNewCFO("unix"), cfg)
+		verifapi.Assert("submitted", err == nil && resp != nil)
+		id, _ := resp["unitid"].(string)
+		return id
+	}
+	// unit 1: one arbitrary 8-byte name; unit 2: the SAME name (so it is secret in both or in neither) plus a plain one;
+	// unit 3: only plain names that unit 1 does not have
+	id1 := submit(map[string]string{k1: "v1"})
+	id2 := submit(map[string]string{k1: "v2", "plain": "p2"})
+	id3 := submit(map[string]string{"Secret_z": "v3", "other": "p3"})
+	verifapi.Quiesce()
+	lst, err := wk.verifCommand(verifNewCFO("tcp"), map[string]interface{}{"command": "work", "subcommand": "list"})
+	verifapi.Assert("list-ok", err == nil)
+	params := func(id string) map[string]string {
+		entry, ok := lst[id].(map[string]interface{})
+		verifapi.Assert("list-has-unit", ok)
+		ed, ok := entry["ExtraData"].(*RemoteExtraData)
+		verifapi.Assert("entry-has-remote-data", verifapi.All(ok, ed != nil))
+		return ed.RemoteParams
+	}
+	p1, p2, p3 := params(id1), params(id2), params(id3)
+	verifapi.Cover("three-units-listed")
+	_, has1 := p1[k1]
+	_, has2 := p2[k1]
+	if verifIsSecret(k1) {
+		verifapi.Cover("shared-name-is-secret")
+		verifapi.Assert("secret-hidden-in-every-unit", verifapi.All(!has1, !has2))
+	} else {
+		verifapi.Assert("plain-name-shown-in-every-unit", verifapi.All(has1, has2, p1[k1] == "v1", p2[k1] == "v2"))
+	}
+	_, z := p3["Secret_z"]
+	verifapi.Assert("each-unit-redacted-by-its-own-names", verifapi.All(!z, p3["other"] == "p3", p2["plain"] == "p2"))
+}
